@@ -309,6 +309,64 @@ def _sec_variant(fn, cfg, n, terms, prefix, start_node, mapping, ctx, mod):
     mapping[prefix] = (par, coords)
 
 
+def _lift_cells(ctx, spec):
+    """parse_sec / parse_xonly evaluated with `sqrt()` standing for a formal root: the code looks at the root only through its parity
+    and at the tag only through comparisons with 2, 3, 4, so one representative per (tag, parity of the root) decides every input.
+    Returns (problems, facts) or raises Undecided."""
+    from sa.cells import ClassRef, Evaluator, Obj, Raised, Undecided
+    P = SECP256K1["P"]
+    X0, Y0 = SECP256K1["GX"], SECP256K1["GY"]
+    roots = (4, 5, P - 1, P - 2)
+
+    def num(v):
+        if isinstance(v, Obj) and "num" in v.attrs:
+            return v.attrs["num"]
+        if isinstance(v, int) and not isinstance(v, bool):
+            return v
+        raise Undecided("coordinate %r" % (v,))
+
+    def init(o, x=None, y=None, **kw):
+        o.attrs.update({"x": x, "y": y})
+    problems, facts = [], []
+    xonly = spec.endswith("parse_xonly")
+    cases = [(None, b) for b in roots] if xonly else [(t, b) for t in (2, 3) for b in roots] + [(4, None)]
+    for tag, beta in cases:
+        ctx.count("cells")
+
+        def sqrt(o, *a, **k):
+            return Obj("pecc", "S256Field", {"num": beta, "prime": P})
+        data = X0.to_bytes(32, "big") if xonly else bytes([tag]) + X0.to_bytes(32, "big") + (Y0.to_bytes(32, "big") if tag == 4 else b"")
+        ev = Evaluator(ctx.repo, method_hooks={("S256Field", "sqrt"): sqrt, ("S256Point", "__init__"): init})
+        try:
+            r = ev.call(spec, [data], self_obj=ClassRef("pecc", "S256Point"))
+        except Raised as x:
+            problems.append("%s raises %s" % ("x-only key" if xonly else "tag %02x" % tag, x.name))
+            continue
+        if not isinstance(r, Obj) or "y" not in r.attrs:
+            raise Undecided("result %r" % (r,))
+        gx, gy = num(r.attrs["x"]), num(r.attrs["y"])
+        if tag == 4:
+            if (gx, gy) != (X0, Y0):
+                problems.append("uncompressed key decoded as x=bytes→%s, y=bytes→%s instead of x = bytes[1:33], y = bytes[33:65]" % (
+                    "x" if gx == X0 else ("y" if gx == Y0 else "?"), "y" if gy == Y0 else ("x" if gy == X0 else "?")))
+            else:
+                facts.append("04: x = bytes[1:33], y = bytes[33:65]")
+            continue
+        want_odd = (tag == 3)
+        want = beta if (beta % 2 == 1) == want_odd else P - beta
+        who = "x-only lift" if xonly else "tag %02x" % tag
+        if gx != X0:
+            problems.append("%s: x coordinate is not the encoded one" % who)
+        elif gy == want:
+            facts.append("%s, %s root → %s y" % (who, "odd" if beta % 2 else "even", "odd" if want_odd else "even"))
+        elif gy == P - want:
+            problems.append("%s with an %s square root returns the %s root (%s)" % (who, "odd" if beta % 2 else "even", "even" if want_odd else "odd",
+                                                                                   "BIP340 lift_x requires even Y" if xonly else "tag says %s" % ("odd" if want_odd else "even")))
+        else:
+            problems.append("%s: y is neither the root nor its negation" % who)
+    return sorted(set(problems)), sorted(set(facts))
+
+
 def c03_8(ctx):
     """parity → prefix mapping identical in sec() and parse_sec()"""
     out = []
@@ -374,8 +432,20 @@ def c03_8(ctx):
         out.append(ctx.ok("pecc:S256Point.sec", "02 ‖ x for even Y, 03 ‖ x for odd Y, 04 ‖ x ‖ y uncompressed (32-byte big endian)", fn, mod, key="sec-map"))
     else:
         out.append(ctx.bad("pecc:S256Point.sec", "prefix/parity/coordinate mapping is %s, SEC 1 says %s" % (mapping, want), fn, mod, key="sec-map"))
-    # decoder
+    # decoder: decided by cell evaluation (tag x parity of the formal root); the syntactic reading below is the fallback
+    from sa.cells import Undecided as _Und
     mod, fn = rl.get(ctx, "pecc:S256Point.parse_sec")
+    modx, fnx = rl.get(ctx, "pecc:S256Point.parse_xonly")
+    try:
+        pr1, f1 = _lift_cells(ctx, "pecc:S256Point.parse_sec")
+        pr2, f2 = _lift_cells(ctx, "pecc:S256Point.parse_xonly")
+        out.append(ctx.bad("pecc:S256Point.parse_sec", "; ".join(pr1), fn, mod, key="parse-map") if pr1 else
+                   ctx.ok("pecc:S256Point.parse_sec", "; ".join(f1), fn, mod, key="parse-map"))
+        out.append(ctx.bad("pecc:S256Point.parse_xonly", "; ".join(pr2), fnx, modx, key="xonly-even") if pr2 else
+                   ctx.ok("pecc:S256Point.parse_xonly", "x-only lift returns the even-Y root for a root of either parity", fnx, modx, key="xonly-even"))
+        return out
+    except _Und:
+        pass
     cfg = cfg_of(fn)
     rd = rd_of(fn)
     p = param_names(fn)[1]
@@ -523,15 +593,45 @@ def _parity_at_return(fn, cfg, ret, yname, fold):
     return "odd"
 
 
+def _parse_dispatch_cells(ctx, repo, label):
+    """S256Point.parse evaluated for every length 0..130 (the function looks at its argument only through len() compared with
+    constants and hands it on): which decoder is reached"""
+    from sa.cells import ClassRef, Evaluator, Raised
+    spec = "%s:S256Point.parse" % label
+    mod, fn = repo.func(spec)
+    problems = []
+    for L in range(0, 131):
+        ctx.count("cells")
+        ev = Evaluator(repo, method_hooks={("S256Point", "parse_xonly"): lambda b, *a, **k: "xonly", ("S256Point", "parse_sec"): lambda b, *a, **k: "sec"})
+        try:
+            r = ev.call(spec, [bytes(L)], self_obj=ClassRef(label, "S256Point"))
+        except Raised:
+            r = None
+        want = {32: "xonly", 33: "sec", 65: "sec"}.get(L)
+        if r != want:
+            problems.append("%d bytes: %s (expected %s)" % (L, "rejected" if r is None else "handed to the %s decoder" % r, "rejection" if want is None else "the %s decoder" % want))
+    if problems:
+        return ctx.bad(spec, "length dispatch: " + "; ".join(problems[:4]), fn, mod, key="accept")
+    return ctx.ok(spec, "lengths 32 → x-only, 33 / 65 → SEC, every other length 0..130 rejected", fn, mod, key="accept")
+
+
 def c03_9(ctx):
     """S256Point.parse: accepted lengths ⊆ {32, 33, 65}"""
+    from sa.cells import Undecided
     out = []
     for repo, label in ((ctx.repo, "pecc"), (ctx.repo_c, "cecc")):
         mod, fn = repo.func("%s:S256Point.parse" % label)
         p = param_names(fn)[1]
         key = "len(%s)" % p
-        out += rl.accept_set(ctx, "%s:S256Point.parse" % label, [key], ISet.of([32, 33, 65]), targets="returns", prefer=(31, 64),
-                             init={key: ISet.range(0, None)}, repo=repo, what="encoding length " + key)
+        res = rl.accept_set(ctx, "%s:S256Point.parse" % label, [key], ISet.of([32, 33, 65]), targets="returns", prefer=(31, 64),
+                            init={key: ISet.range(0, None)}, repo=repo, what="encoding length " + key)
+        if any(r.status == "error" for r in res):
+            # not an if-chain over the length (a table, a computed name): decide by evaluating the dispatch for each length
+            try:
+                res = [_parse_dispatch_cells(ctx, repo, label)]
+            except Undecided:
+                pass
+        out += res
     return out
 
 
